@@ -183,10 +183,12 @@ class State:
         self.journal = None
         self.steps = 0
         self.decomp_depth = 1   # depth of the form decomposition p = k*f + rest in range_of
+        self.ghost = {}         # specification-level bindings (e.g. loop-invariant hooks)
 
     def clone(self):
         s = State(self.atoms)
         s.decomp_depth = self.decomp_depth
+        s.ghost = dict(self.ghost)
         s.frames = [f.clone() for f in self.frames]
         s.pframes = {k: f.clone() for k, f in self.pframes.items()}
         s.bounds = dict(self.bounds)
@@ -673,6 +675,9 @@ class Opts:
         self.profile = profile
         self.track_sites = track_sites
         self.no_inline = set(no_inline)
+        self.max_total_steps = 400000    # budget of one explore() call (all paths together)
+        self.loop_hooks = {}         # fn id -> hook object (on_generalise / on_rearrival): specification-supplied loop invariants
+        self.loop_delay = 0          # arrivals to pass before the base snapshot of a generalised loop is taken
         self.unroll_loops = True     # False: generalise (widen) at the 2nd arrival at a loop head instead of unrolling
         self.precision = 'sym'      # Formatter::precision(): 'sym' (fork None / unknown), None, or a concrete usize
 
@@ -688,6 +693,7 @@ class Interp:
         self.opts = opts or Opts()
         from . import models
         self.models = models
+        self.total_steps = 0
         self.sites_seen = {}     # (fn id, bb, kind) -> set('pass','fail') for R-PROFILE bookkeeping
 
     # ------------------------------------------------------------ entry
@@ -716,11 +722,12 @@ class Interp:
         work = [state]
         outs = []
         npaths = 0
+        self.total_steps = 0
         while work:
             st = work.pop()
             npaths += 1
-            if npaths > self.opts.max_paths:
-                outs.append(Outcome('unknown', None, st, info='path limit'))
+            if npaths > self.opts.max_paths or self.total_steps > self.opts.max_total_steps:
+                outs.append(Outcome('unknown', None, st, info='analysis budget exhausted (%d paths, %d steps): path explosion' % (npaths, self.total_steps), site=self.cur_site(st)))
                 break
             try:
                 out = self.run_path(st)
@@ -753,6 +760,7 @@ class Interp:
     def run_path(self, st):
         while True:
             st.steps += 1
+            self.total_steps += 1
             if st.steps > self.opts.max_steps:
                 raise Stop('step limit')
             fr = st.frames[-1]
@@ -887,21 +895,31 @@ class Interp:
         rec = dict(rec)
         rec['n'] += 1
         fr.loops[fr.bb] = rec
+        hook = self.opts.loop_hooks.get(fr.fn['id'])
         if rec['gen'] is None:
             if rec['n'] <= self.unroll_budget(st, fr, rec):
                 return
-            # generalise the state of the first visit and the current one
+            if rec['n'] <= 1 + self.opts.loop_delay:
+                rec['snap'] = self.snapshot(st)       # base case taken later (invariants that only hold after the first rounds)
+                return
+            before = self.snapshot(st)
             g = self.generalise(st, rec['snap'], None)
+            if hook is not None:
+                hook.on_generalise(self, st, fr, rec['snap'], before, g)
             rec['gen'] = g
             rec['widen'] = 1
             return
         # already generalised: is the current state covered?
-        if self.subsumed(st, rec['gen']):
+        if self.subsumed(st, rec['gen']) and (hook is None or hook.on_rearrival(self, st, fr, rec['gen'])):
             raise Infeasible()       # nothing new: this path is covered by the generalised iteration
         rec['widen'] += 1
         if rec['widen'] > self.MAX_WIDEN:
-            raise Stop('loop at %s bb%d does not stabilise' % (fr.fn['id'], fr.bb))
-        rec['gen'] = self.generalise(st, rec['gen']['snap'], rec['gen'])
+            raise Stop('loop at %s bb%d does not stabilise%s' % (fr.fn['id'], fr.bb, (': ' + st.ghost.get('hook_msg', '')) if st.ghost.get('hook_msg') else ''))
+        before = self.snapshot(st)
+        prev = rec['gen']
+        rec['gen'] = self.generalise(st, prev['snap'], prev)
+        if hook is not None:
+            hook.on_generalise(self, st, fr, prev['snap'], before, rec['gen'])
 
     def unroll_budget(self, st, fr, rec):
         """loops are unrolled while every arrival is a *decided* continuation; a loop whose state keeps changing symbolically is generalised at the 2nd arrival"""
@@ -1397,6 +1415,18 @@ class Interp:
 
     def compare(self, st, op, a, b):
         if isinstance(a, Int) and isinstance(b, Int):
+            # leading_zeros(x) >= k  <=>  x < 2^(bits-k)   (x >= 0)
+            la = plinear_single(st.norm(a.p))
+            if la is not None and la[1] == 1 and la[2] == 0 and st.atoms.desc[la[0]][0] == 'lz' and op in ('Ge', 'Gt', 'Lt', 'Le'):
+                blo_, bhi_ = st.itv(b)
+                _, Xf, bits = st.atoms.desc[la[0]]
+                X = pthaw(Xf)
+                if blo_ == bhi_ and st.sign(X) <= NONNEG:
+                    k = blo_ + (1 if op in ('Gt', 'Le') else 0)        # lz >= k  (Ge/Gt)   or   lz < k (Lt/Le)
+                    if 0 <= k <= bits:
+                        thr = K(2 ** (bits - k), a.ty if INT_RANGES[a.ty][1] >= 2 ** (bits - k) else 'u128')
+                        xi = Int('u128', 0, 2 ** 128 - 1, X)
+                        return self.compare(st, 'Lt' if op in ('Ge', 'Gt') else 'Ge', xi, thr)
             d = padd(a.p, b.p, -1)
             strue = {'Eq': ZERO, 'Ne': NONZERO, 'Lt': NEG, 'Le': NONPOS, 'Gt': POS, 'Ge': NONNEG}[op]
             # use the value intervals as well (they may be tighter than the term's)
@@ -1524,6 +1554,35 @@ class Interp:
     def shift(self, st, op, a, b, ty):
         blo, bhi = st.itv(b)
         if blo != bhi:
+            A = st.norm(a.p)
+            Bn = st.norm(b.p)
+            ls = plinear_single(Bn)
+            if op == 'Shr' and ls is not None and ls[1] == 1 and ls[2] == 0:
+                d = st.atoms.desc[ls[0]]
+                if d[0] == 'tz' and d[1] == pfreeze(A):
+                    # x >> x.trailing_zeros(): the odd part of x
+                    sa = st.sign(A)
+                    if sa == ZERO:
+                        return K(0, ty)
+                    m, r = st.cong_poly(A)
+                    if m > 0 and m % 2 == 0 and r % 2 == 1:
+                        return a
+                    o = st.atoms.get(('odd', pfreeze(A)))
+                    alo, ahi = st.itv(a)
+                    if 0 not in sa:
+                        st._jset('bounds', o, (1, max(ahi, 1)))
+                        st._jset('cong', o, (2, 1))
+                    else:
+                        st._jset('bounds', o, (0, max(ahi, 0)))
+                    v = Int(ty, st.bounds[o][0], st.bounds[o][1], patom(o))
+                    st.assume(padd(v.p, A, -1), NONPOS)
+                    return v
+            if op == 'Shl':
+                s_ = st.atoms.get(('shl', pfreeze(A), pfreeze(Bn)))
+                if s_ not in st.bounds:
+                    rlo, rhi = INT_RANGES[ty]
+                    st._jset('bounds', s_, (rlo, rhi))
+                return Int(ty, st.bounds[s_][0], st.bounds[s_][1], patom(s_))
             return st.fresh(ty, tag='shift')
         k = blo
         bits = {'u8': 8, 'i8': 8, 'u16': 16, 'i16': 16, 'u32': 32, 'i32': 32, 'u64': 64, 'i64': 64, 'u128': 128, 'i128': 128, 'usize': 64, 'isize': 64}[ty]
@@ -1575,6 +1634,20 @@ class Interp:
             # undecided combination: decide the left operand first (forks), then re-evaluate
             ta_ = st.truth(a)
             return self.bitop(st, op, K(int(ta_), 'bool'), b, ty)
+        # x & (2^k - 1) is x mod 2^k (two's complement: also for negative x)
+        if op == 'BitAnd':
+            for x, m in ((a, b), (b, a)):
+                mlo, mhi = st.itv(m)
+                if mlo == mhi and mlo > 0 and (mlo & (mlo + 1)) == 0:
+                    c = mlo + 1
+                    xlo, xhi = st.itv(x)
+                    if xlo == xhi:
+                        return K(xlo & mlo, ty)
+                    r = self.divrem(st, 'Rem', x, K(c, x.ty), x.ty)         # truncated remainder, sign of x
+                    s = st.decide(r.p, [NEG, NONNEG])
+                    if s == 1:
+                        return self.mk(st, ty, r.p, 0, mlo)
+                    return self.mk(st, ty, padd(r.p, pconst(c)), 0, mlo)
         ta, tb = self.tnum(st, a), self.tnum(st, b)
         if ta is None or tb is None:
             return st.fresh(ty, tag='bits')
